@@ -53,7 +53,10 @@ class FromDirectionCosines(Model):
         self.outputs = ('x', 'y', 'z')
 
     def evaluate(self, cosa, cosb, cosc, length):
-        return cosa * length, cosb * length, cosc * length
+        x, y, z = cosa * length, cosb * length, cosc * length
+        # each output depends on one cosine only: all get the common shape of the inputs
+        x, y, z = np.broadcast_arrays(x, y, z, subok=True)
+        return x, y, z
 
     def inverse(self):
         return ToDirectionCosines()
